@@ -8,4 +8,5 @@ INVARIANT Emit
 PROPERTY GroupValidityMonotone
 PROPERTY StopAllIsFinal
 PROPERTY FailAllReaches
+PROPERTY Termination
 CHECK_DEADLOCK FALSE
